@@ -177,6 +177,21 @@ class CallMixin:
         return self.call_special(fv, args, kwargs, node, fr)
 
     def call_special(self, fv, args, kwargs, node, fr):
+        # dispatch through a rule list: a call to *some* function satisfying the generic rule contract
+        if isinstance(fv, VAtom) and args and isinstance(args[0], VObj):
+            key = {("StateBlock", 4): "<block_rule>", ("StateInline", 2): "<inline_rule>",
+                   ("StateInline", 1): "<inline_rule2>", ("StateCore", 1): "<core_rule>"}.get((args[0].cls, len(args)))
+            c = self.registry.get(key) if key else None
+            if c is not None:
+                from .engine import Frame
+
+                sub = Frame(key, fr.mi, fr.fn, fr.ords, c)
+                sub.assigned_names = set()
+                names = list(c.params)
+                for n, a in zip(names, args):
+                    sub.locals[n] = a
+                sub.entry = dict(sub.locals)
+                return self.apply_contract(c, sub, node, fr)
         raise Unsupported(f"call of {fv!r} at line {node.lineno}")
 
     # ------------------------------------------------------------------ builtins
@@ -276,7 +291,7 @@ class CallMixin:
 
     def apply_strfun(self, name, args):
         """uninterpreted string function (result is an opaque string determined by its arguments)"""
-        key = name + "(" + ",".join(str(a.t) if hasattr(a, "t") else repr(a) for a in args) + ")"
+        key = name + "(" + ",".join(str(z3.simplify(a.t)) if hasattr(a, "t") else repr(a) for a in args) + ")"
         if key not in self.ghost:
             s = VStr.var(self.new_ref(name))
             self.assume_axiom(s.b >= 0)
@@ -298,6 +313,13 @@ class CallMixin:
         return self.method_special(recv, name, args, kwargs, node, fr)
 
     def method_special(self, recv, name, args, kwargs, node, fr):
+        if isinstance(recv, VOpt) and isinstance(recv.some, VObj):
+            self.safe_or_raise(z3.Not(recv.isnone), "AttributeError", node, fr, "call")
+            recv = recv.some
+        if isinstance(recv, VObj) and recv.cls == "<opaque>" and name in OPAQUE_PURE_METHODS:
+            # assumed contract on a dependency (re / dict / match objects): pure, result opaque
+            self.assumption_log.add(f"{name}() on opaque value assumed pure and non-raising")
+            return VObj(self.new_ref(f"{recv.ref.split('#')[0]}.{name}"), "<opaque>")
         raise Unsupported(f"method {name} of {recv!r}")
 
     def list_method(self, recv, name, args, node, fr):
@@ -469,7 +491,10 @@ class CallMixin:
             for m in c.modifies:
                 self.havoc_heap_path(m, sub, {})
             result = NONE
-            if c.result:
+            rf = c.ghost.get("result_fun") if c.ghost else None
+            if rf:
+                result = self.apply_strfun(rf, [v for k, v in sub.locals.items() if isinstance(v, (VInt, VBool)) and k != "self"])
+            elif c.result:
                 result = self.sym_for_type(c.result, self.new_ref(f"ret_{short}"))
             # exceptional outcomes the callee's contract allows
             excs = list(c.raises)
@@ -495,6 +520,9 @@ class CallMixin:
             return result
         finally:
             self.old_state = saved_old
+
+
+OPAQUE_PURE_METHODS = {"search", "match", "fullmatch", "group", "start", "end", "get", "lower", "upper", "strip"}
 
 
 class VStrOrList(V):
